@@ -78,10 +78,10 @@ impl TransportState {
     ///
     /// Will result in `StateProblem::Exhausted` if the max nonce overflows.
     pub fn read_message(&mut self, message: &[u8], payload: &mut [u8]) -> Result<usize, Error> {
-        if message.len() > MAXMSGLEN {
-            Err(Error::Input)
-        } else if self.initiator && self.pattern.is_oneway() {
+        if self.initiator && self.pattern.is_oneway() {
             Err(StateProblem::OneWay.into())
+        } else if message.len() > MAXMSGLEN {
+            Err(Error::Input)
         } else {
             let cipher =
                 if self.initiator { &mut self.cipherstates.1 } else { &mut self.cipherstates.0 };
